@@ -129,6 +129,14 @@ func newCrashNode(f *Factory, cache uint64, crashAt int, prune uint64, maxFile u
 			}
 		}
 	}
+	if prune == 0 && len(f.Pre) > 0 {
+		// the workload starts from ChainStore.tla's initial state: everything below abstract block 0 is flushed
+		// (consistency marker = abstract block 0, utxo bucket = its fold)
+		if err := n.chain.FlushUtxoCache(blockchain.FlushRequired); err != nil {
+			n.close()
+			return nil, err
+		}
+	}
 	n.notes = nil
 	n.wrap.commits = 0
 	n.wrap.crashAt = crashAt
